@@ -215,11 +215,16 @@ def real_bank_oracle(ctx):
     banks = []
     BURSTS = {5: ("si", "gabor", "causal"), 11: ("stft", "gabor", "centered"), 17: ("si", "gabor", "centered"),
               20: ("si", "gammatone", "causal"), 23: ("si", "tri", "centered")}
+    # non-contiguous signals (fixed in every parameter): computer, memory layout, dtype, bank
+    LAYOUTS = {4: ("stft", "step2", np.float64, "tri"), 10: ("stft", "column", np.float32, "gabor"),
+               16: ("si", "step2", np.float64, "gabor"), 22: ("stft", "negative", np.float64, "fbank")}
     for case_no in range(n):
         kind = r.choice(["gabor", "tri", "fbank", "gammatone"])
         scale = r.choice(["mel", "bark", "linear", "octave"])
         if case_no in BURSTS:
             kind, scale = BURSTS[case_no][1], "mel"
+        if case_no in LAYOUTS:
+            kind, scale = LAYOUTS[case_no][3], "mel"
         sc_arg = {"mel": "mel", "bark": "bark", "linear": dict(name="linear", low_hz=0.0), "octave": dict(name="octave", low_hz=40.0)}[scale]
         nf = r.choice([3, 5, 8])
         lo, hi = r.choice([(20.0, 3800.0), (100.0, 2000.0), (300.0, 4000.0)])
@@ -253,6 +258,9 @@ def real_bank_oracle(ctx):
         shift_ms = r.choice([2.0, 5.0, 10.0])
         if case_no in BURSTS:
             shift_ms = 3.0
+        if case_no in LAYOUTS:
+            which, shift_ms = LAYOUTS[case_no][0], 5.0
+            style = ["causal", "centered"][(case_no // 6) % 2]
         case = dict(computer=which, bank=kind, scale=scale, num_filts=nf, low=lo, high=hi, style=style, shift_ms=shift_ms, **flags)
         try:
             if which == "stft":
@@ -299,8 +307,22 @@ def real_bank_oracle(ctx):
             x = np.random.RandomState(r.randrange(1 << 30)).randn(N).astype(fdt)
             x.setflags(write=False)
             chunks = [L + 3] * (N // (L + 3)) + ([N % (L + 3)] if N % (L + 3) else [])
+        layout = None
+        if case_no % 6 == 4:
+            # "any float signal": the samples need not be contiguous in memory - every other element of a longer array,
+            # one channel of an interleaved stereo buffer, an array read backwards.  Chunks longer than two frames, so
+            # that whole frames lie inside one chunk (where a computer may be tempted to frame without copying)
+            layout = LAYOUTS[case_no][1] if case_no in LAYOUTS else ["step2", "column", "negative"][(case_no // 6) % 3]
+            fdt = LAYOUTS[case_no][2] if case_no in LAYOUTS else [np.float64, np.float32][(case_no // 18) % 2]
+            N = 7 * L + 5
+            x = common.strided_view(np.random.RandomState(r.randrange(1 << 30)).randn(N).astype(fdt), layout)
+            x.setflags(write=False)
+            chunks = [2 * L + 3] * (N // (2 * L + 3)) + ([N % (2 * L + 3)] if N % (2 * L + 3) else [])
+            case["layout"] = layout
         case.update(N=N, chunks=chunks, L=L, S=S, dtype=np.dtype(fdt).name)
         ctx.case(case, kind="real:" + which + ":" + kind)
+        if layout:
+            ctx.count("layout:" + layout)
         try:
             full = comp.compute_full(x)
             parts, off = [], 0
